@@ -30,7 +30,7 @@ type aliasRecord struct {
 	print string
 }
 
-func fmtAddrIntervals(m interval.Map[model.Addr]) string {
+func fmtSparseIntervals(m interval.Map[model.Addr]) string {
 	var sb strings.Builder
 	fmt.Fprintf(&sb, "%d", m.Len())
 	for _, i := range m.Intervals() {
@@ -73,9 +73,9 @@ func sparseOp(m *memory.Sparse, t *tokens, seen *[]aliasRecord) (res string) {
 	case "ms":
 		addr := model.Addr(t.uint())
 		w := t.width()
-		return fmtAddrIntervals(m.Missing(addr, w))
+		return fmtSparseIntervals(m.Missing(addr, w))
 	case "bl":
-		return fmtAddrIntervals(m.Blocks())
+		return fmtSparseIntervals(m.Blocks())
 	default:
 		panic(parseError("bad sparse op " + op))
 	}
